@@ -163,3 +163,22 @@ Qed.
 Lemma unguarded_candidate_unfit_proof :
   exists loc glo s, In s (candidates false true loc glo) /\ fits s = false.
 Proof. exists (Some (1, 65536)), None, (SLocal 1 65536 6). split; [vm_compute; right; left; reflexivity|reflexivity]. Qed.
+
+(* ---------------- the theorem at the constants of the code ---------------- *)
+Lemma pazip_compress_roundtrip_real_proof :
+  forall (guard_local : bool) (dict : list N) (enable_mt : bool) (mt_threshold : N) (x : list N)
+         (answers : list (list answer)) (fuel : nat) (scratch : list N),
+    (length x < fuel)%nat ->
+    compress_hyp guard_local dict PARALLEL_THRESHOLD BLOCK_SIZE enable_mt mt_threshold fuel x answers ->
+    exists scratch' z,
+      pz_compress guard_local PARALLEL_THRESHOLD BLOCK_SIZE enable_mt mt_threshold fuel x answers scratch []
+      = CDone (scratch', z) /\
+      legacy_decompress dict z = Some x.
+Proof.
+  intros gl dict mt thr x answers fuel scratch Hfuel Hh.
+  apply pazip_compress_roundtrip_proof; [unfold BLOCK_SIZE; lia|exact Hfuel|exact Hh].
+Qed.
+Example pazip_compress_real_example :
+  forall gl : bool,
+    compress_hyp gl ex_dict PARALLEL_THRESHOLD BLOCK_SIZE true 0 19 ex_x [ex_answers].
+Proof. intros gl. apply compress_hypb_sound. destruct gl; vm_compute; reflexivity. Qed.
